@@ -62,10 +62,12 @@ type StreamPlan struct {
 	Invalid           []byte // invalid-event payload
 	Second            bool   // a second, short malformed packet follows the injected one at once
 	Invalid2          []byte
-	BadType           byte // unsupported event type
-	SeqDelta          int  // bad-seq: +1 (skipped) or -1 (repeated)
-	Heartbeat         int  // 1/n chance of a heartbeat at each unit boundary (0 = none)
-	HeartbeatAnywhere bool // also between the events of a unit (1/4n each)
+	BadType           byte   // unsupported event type
+	BadVariant        int    // 0 = an event type the library refuses; 1.. = a known type whose body cannot be decoded (see startDump)
+	BadBytes          []byte // random filler of the undecodable variants
+	SeqDelta          int    // bad-seq: +1 (skipped) or -1 (repeated)
+	Heartbeat         int    // 1/n chance of a heartbeat at each unit boundary (0 = none)
+	HeartbeatAnywhere bool   // also between the events of a unit (1/4n each)
 	hbSeed            uint64
 }
 
@@ -100,6 +102,7 @@ type MasterLog struct {
 }
 
 type simMaster struct {
+	causeAt  int // index (in packets) of the packet that carries the stream-composed cause
 	h        *History
 	conn     *simConn
 	plan     StreamPlan
@@ -421,7 +424,42 @@ func (m *simMaster) startDump(d *DumpReq, seq byte) {
 				ckAt = h.Files[pk[k].ev.File].Checksum
 			}
 		}
-		raw := encodeEvent(1500000000, p.BadType, h.Cfg.MasterID, 0, 0, body, ckAt)
+		typ := p.BadType
+		// undecodable variants: header and length are fine (the validity gate lets
+		// them through), the body is one the decoder of that type reports an error for
+		qfix := func(dbLen byte, vars []byte) []byte {
+			b := le32(nil, 7)
+			b = le32(b, 0)
+			b = append(b, dbLen)
+			b = le16(b, 0)
+			b = le16(b, uint16(len(vars)))
+			return append(b, vars...)
+		}
+		switch p.BadVariant {
+		case 1: // ROTATE without room for the 8-byte position
+			typ = evRotate
+			body = append([]byte(nil), p.BadBytes[:minInt(len(p.BadBytes), 7)]...)
+		case 2: // QUERY whose schema name runs past the end of the event
+			typ = evQuery
+			body = append(qfix(200, nil), p.BadBytes[:minInt(len(p.BadBytes), 30)]...)
+		case 3: // QUERY whose charset status variable is cut
+			typ = evQuery
+			body = append(qfix(1, []byte{4, 33, 0}), "d\x00BEGIN"...)
+		case 4: // QUERY whose catalog status variable has no length byte
+			typ = evQuery
+			body = append(qfix(1, []byte{6}), "d\x00COMMIT"...)
+		case 5: // FORMAT_DESCRIPTION of binlog version 3
+			typ = evFormatDesc
+			body = fdeBody(h.Cfg.Format, 0)
+			body[0] = 3
+			ckAt = true
+		case 6: // FORMAT_DESCRIPTION announcing a 10-byte event header
+			typ = evFormatDesc
+			body = fdeBody(h.Cfg.Format, 0)
+			body[2+50+4] = 10
+			ckAt = true
+		}
+		raw := encodeEvent(1500000000, typ, h.Cfg.MasterID, 0, 0, body, ckAt)
 		if p.Second {
 			insert(wirePacket{payload: append([]byte{0}, p.Invalid2...), kind: "invalid2"})
 		}
@@ -455,6 +493,7 @@ func (m *simMaster) startDump(d *DumpReq, seq byte) {
 		stream = stream[:cut]
 	}
 	m.packets = pk
+	m.causeAt = at
 	m.dumpBase = m.conn.delivered + len(m.conn.wire)
 	m.dumpLen = len(stream)
 	m.conn.wire = append(m.conn.wire, stream...)
